@@ -94,6 +94,9 @@ CHECKS = {
             {"name": "xfer", "pkg": X, "run": "^TestVerifC01",
              "quick": {"checks": 1200, "shards": 4, "timeout": 900},
              "thorough": {"checks": 3000, "shards": 16, "timeout": 3000}},
+            {"name": "srv", "pkg": "./internal/verifsrv", "run": "^TestVerifC01", "binaries": ["thruserv", "thru"],
+             "quick": {"checks": 2, "shards": 3, "timeout": 900},
+             "thorough": {"checks": 10, "shards": 8, "timeout": 3400}},
         ],
     },
     "C03": {
@@ -538,3 +541,5 @@ CHECKS["C03"]["level_text"] += (" Unit 'e2e' runs the real binaries (thruserv, `
 CHECKS["C04"]["level_text"] += (" Unit 'e2e' uses the real binaries: thruserv and `thru host` run as processes, a first (and possibly second) "
                                 "`thru join` is killed with SIGKILL a drawn 0-600 ms after it reported its transfer connection (6-48 MB file), the "
                                 "last `thru join` answers the resume prompt with yes and must exit 0 within 90 s with exactly the hosted tree.")
+CHECKS["C01"]["level_text"] += (" Unit 'e2e' runs the complete applications over real QUIC (thruserv, `thru host`, `thru join` as processes): "
+                                "whenever `thru join` exits 0 its output directory must hold exactly the hosted tree.")
